@@ -857,7 +857,13 @@ dim2id2iso_ideal_to_isogeny_clapotis(theta_chain_t *isog,
 
         // we perform the computation of phiu with a fixed degree isogeny
         // t = tic();
-        fixed_degree_isogeny(&Fu, &idealu, u, &adjust_u, 1);
+        if (!fixed_degree_isogeny(&Fu, &idealu, u, &adjust_u, 1)) {
+            // Fu is not set: report the failure instead of using it
+            quat_left_ideal_finalize(&idealu);
+            quat_left_ideal_finalize(&idealv);
+            found = 0;
+            goto cleanup;
+        }
         // TOC(t,"1st fixed deg");
         // pushing the torsion points through Fu
         // first we lift the basis
@@ -925,7 +931,13 @@ dim2id2iso_ideal_to_isogeny_clapotis(theta_chain_t *isog,
         // computation of phiv
         // t = tic();
         int bv = fixed_degree_isogeny(&Fv, &idealv, v, &adjust_v, 1);
-        assert(bv);
+        if (!bv) {
+            // Fv is not set: report the failure instead of using it
+            quat_left_ideal_finalize(&idealu);
+            quat_left_ideal_finalize(&idealv);
+            found = 0;
+            goto cleanup;
+        }
         // TOC(t,"2nd fixed deg");
 
         // pushing the torsion points through Fv
@@ -1301,6 +1313,7 @@ dim2id2iso_ideal_to_isogeny_clapotis(theta_chain_t *isog,
 
 #endif
 
+cleanup:
     ibq_finalize(&norm);
     ibz_finalize(&test1);
     ibz_finalize(&test2);
